@@ -343,7 +343,20 @@ def replay_part(ctx, rng, focus):
         if len(hs) < n // 2:
             raise core.MachineryError("only %d histories parsed from %d simulated behaviours" % (len(hs), len(files)))
         return hs
-    hists = simulate(al, nsim, depth, "histories")
+    # TLC simulates 8x as many histories as are replayed; the harness keeps the most colliding ones (the non-triviality rule:
+    # calls to one function / one module family with different arguments), ties in TLC's order
+    def collisions(h):
+        n = 0
+        for i in range(len(h)):
+            for j in range(i + 1, len(h)):
+                if h[i] != h[j]:
+                    if h[i][0] == h[j][0]:
+                        n += 2
+                    elif FAMILY.get(h[i][0], h[i][0]) == FAMILY.get(h[j][0], h[j][0]):
+                        n += 1
+        return n
+    cand = simulate(al, nsim * (8 if ctx.tier != "thorough" else 1), depth, "histories")
+    hists = sorted(cand, key=lambda h: -collisions(h))[:nsim] if ctx.tier != "thorough" else cand
     # histories for the multi-threaded replays: quick = short ones over the calls where threads can matter (40x48 rasters,
     # Dask graphs), generated by TLC the same way; thorough = a subset of the long ones above
     tal = [a for a in al if a["sig"].endswith("Big") or a["backend"] == "dask"]
